@@ -601,8 +601,8 @@ _FS_OLD = "        result = self._transform_to_output_3d(trajectory)\n        if
 v('C05 C04 C13', 'fire', 'error_model.py', _FS_OLD, "        if getattr(self, '_last_trajectory', None) is trajectory:\n            return self._last_T\n        result = self._transform_to_output_3d(trajectory)\n        self._last_trajectory = trajectory\n        self._last_T = result\n        if not self.with_altitude:",
   'memo in the instance keyed by the identity of the argument')
 # ------------------------------------------------------------------ TAIL-SLICE concat keywords (sixth session)
-v('C02 C01 C09', 'fire', 'strapdown.py', 'self.trajectory = pd.concat([self.trajectory, trajectory])', 'self.trajectory = pd.concat([self.trajectory, trajectory], ignore_index=True)', 'rows renumbered: the time index is lost')
-v('C02 C01 C09', 'silent', 'strapdown.py', 'self.trajectory = pd.concat([self.trajectory, trajectory])', 'self.trajectory = pd.concat([self.trajectory, trajectory], axis=0, copy=False)', 'harmless keywords')
+v('C02 C01', 'fire', 'strapdown.py', 'self.trajectory = pd.concat([self.trajectory, trajectory])', 'self.trajectory = pd.concat([self.trajectory, trajectory], ignore_index=True)', 'rows renumbered: the time index is lost')
+v('C02 C01', 'silent', 'strapdown.py', 'self.trajectory = pd.concat([self.trajectory, trajectory])', 'self.trajectory = pd.concat([self.trajectory, trajectory], axis=0, copy=False)', 'harmless keywords')
 # ------------------------------------------------------------------ hand-made probes, sixth session
 v('C09 C10', 'fire', 'filters.py', '    measurement_times = np.sort(np.unique(measurement_times))', '    measurement_times = np.unique(np.round(measurement_times, 3))', 'epochs rounded: not elements of the measurement indices any more', every=True)
 v('C09 C10', 'silent', 'filters.py', '    measurement_times = np.sort(np.unique(measurement_times))', '    measurement_times = np.array(sorted(set(measurement_times.tolist())))', 'de-duplicated through a set', every=True)
@@ -618,7 +618,7 @@ v('C01 C02', 'silent', 'strapdown.py', "        theta = np.ascontiguousarray(inc
 # ------------------------------------------------------------------ survey (new operators), sixth session
 v('C09 C10', 'fire', 'filters.py', '    if measurements is None:', '    if measurements is not None:', 'survey: default installed under the negated test', every=True)
 v('C09 C10', 'fire', 'filters.py', '    gyro_sd = pd.DataFrame(gyro_sd, index=trajectory.index, columns=gyro_model.states)', '    gyro_sd = pd.DataFrame(gyro_sd, columns=gyro_model.states)', 'survey: result table without its time index')
-v('C10 C11', 'fire', 'filters.py', '    gyro = pd.DataFrame(x_gyro, index=trajectory.index, columns=gyro_model.states)', '    gyro = pd.DataFrame(x_gyro, columns=gyro_model.states)', 'survey: result table without its time index')
+v('C10', 'fire', 'filters.py', '    gyro = pd.DataFrame(x_gyro, index=trajectory.index, columns=gyro_model.states)', '    gyro = pd.DataFrame(x_gyro, columns=gyro_model.states)', 'survey: result table without its time index')
 v('C09 C10', 'silent', 'filters.py', '    gyro_sd = pd.DataFrame(gyro_sd, index=trajectory.index, columns=gyro_model.states)', '    gyro_sd = pd.DataFrame(gyro_sd, trajectory.index, gyro_model.states)', 'index and columns passed by position')
 v('C13 C01', 'fire', 'strapdown.py', '                  self.mat_nb, theta, dv, n_data - 1, self.with_altitude)', '                  self.mat_nb, theta, dv, n_data - 1, True)', 'probe: the kernel is run with altitude whatever the stored mode')
 # ------------------------------------------------------------------ round-10 seeds (must fire) and twins
